@@ -1,7 +1,9 @@
 // Package rt is the hand-written runtime of the C14 call sites (see ../main.go): the value
 // types, the per-case context with its recorders and comparisons, the recording type-class
 // instances, the observers of Option/Try/Future and the site table. The generated helper
-// generics (TupN, HlN, MkTupN, RecN, CurN, ...) live in zz_support.go next to this file.
+// generics (TupN, HlN, MkTupN, RecN, CurN, ...) live in zz_support.go next to this file, the
+// creation / reading of argument values (Mk, Rd) and the nil-able / zero-able palette types of
+// the "nilable-types" instantiation in nilable.go.
 package rt
 
 import (
@@ -63,6 +65,8 @@ type Cx struct {
 	ZV, ZY      [MaxPos + 1]bool
 	Nilable     bool
 	NNil, NNilY int
+	Hold        bool       // failed checks are kept in Held instead of being reported
+	Held        []HeldFail // (cases with a non-empty nil mask; see ReportHeld)
 	Sub         string
 	Kinds       string // kind letter of every value position (nilable-types instantiation)
 
@@ -189,10 +193,12 @@ func (c *Cx) Witness() any {
 
 func (c *Cx) Fail(what, detail string) {
 	c.Failed = true
-	if c.Nilable && c.NNil+c.NNilY > 0 && what != "site-table" {
-		// some argument (or fork alternative) of this case is nil / the zero value of its type
-		c.W.Violation(c.Idx, c.Member+"/"+c.NilKey(what), fmt.Sprintf("%s [%s instantiation, construction %d of 2, arguments %v, fork alternatives %v]: %s: %s", c.Member, c.Variant, c.Gen,
-			c.V[1:len(c.Kinds)+1], c.Y[1:len(c.Kinds)+1], what, detail), c.Witness())
+	if c.Hold && what != "site-table" {
+		// a case with nil / zero arguments: judged by the case once the control (the same case
+		// without nil) has been run (ReportHeld)
+		if len(c.Held) < 64 {
+			c.Held = append(c.Held, HeldFail{what, detail})
+		}
 		return
 	}
 	c.W.Violation(c.Idx, c.Member+"/"+what, fmt.Sprintf("%s [%s instantiation, construction %d of 2]: %s", c.Member, c.Variant, c.Gen, detail), c.Witness())
